@@ -8,6 +8,8 @@ import (
 	"fmt"
 	"go/ast"
 	"go/token"
+	"os"
+	"sort"
 	"strings"
 
 	"verif/extract/elib"
@@ -43,6 +45,21 @@ func methodNamed(f *elib.File, name string) *ast.FuncDecl {
 		}
 	}
 	return nil
+}
+
+// rootGoFiles lists the non-test Go files of the root package (verif hook files excluded).
+func rootGoFiles(repo string) []string {
+	ents, _ := os.ReadDir(repo)
+	var out []string
+	for _, e := range ents {
+		n := e.Name()
+		if e.IsDir() || !strings.HasSuffix(n, ".go") || strings.HasSuffix(n, "_test.go") || strings.HasPrefix(n, "verif_") {
+			continue
+		}
+		out = append(out, n)
+	}
+	sort.Strings(out)
+	return out
 }
 
 func body(fd *ast.FuncDecl) ast.Node {
@@ -234,6 +251,47 @@ func main() {
 				good = good && after
 				return false
 			})
+		}
+		// completion sites: a request may be completed (`wg.Done()`) only by
+		// finishCommitRequests and on sendToWriteCh's enqueue-failure path, and
+		// finishCommitRequests may be called only from commitWorker (whose order w.r.t.
+		// applyRequests is checked above).  Any other site in the package acknowledges a
+		// write outside the apply → ack discipline the model has.
+		extra := []string{}
+		for _, rel := range rootGoFiles(*repo) {
+			f := o.Load(rel)
+			for _, d := range f.AST.Decls {
+				fd, ok := d.(*ast.FuncDecl)
+				if !ok || fd.Body == nil {
+					continue
+				}
+				ast.Inspect(fd.Body, func(x ast.Node) bool {
+					c, ok := x.(*ast.CallExpr)
+					if !ok {
+						return true
+					}
+					fn := f.Src(c.Fun)
+					switch {
+					case strings.HasSuffix(fn, "finishCommitRequests"):
+						if fd.Name.Name != "commitWorker" {
+							extra = append(extra, rel+":"+fd.Name.Name+":finishCommitRequests")
+						}
+					case strings.HasSuffix(fn, ".wg.Done"):
+						if fd.Name.Name != "finishCommitRequests" && fd.Name.Name != "sendToWriteCh" {
+							extra = append(extra, rel+":"+fd.Name.Name+":"+fn)
+						}
+					case strings.HasSuffix(fn, ".wg.Add"):
+						if fd.Name.Name != "sendToWriteCh" {
+							extra = append(extra, rel+":"+fd.Name.Name+":"+fn)
+						}
+					}
+					return true
+				})
+			}
+		}
+		if len(extra) > 0 {
+			good = false
+			a = a + "; other completion sites: " + strings.Join(extra, ", ")
 		}
 		o.Set("q.ackAfterApply", a, b(good), shape, "true")
 	}
